@@ -219,6 +219,12 @@ def gen_expr(rng):
             return out
         rep = (kind == "nonsym")
         t = G.make_tensor(name, kind, draw(up_sp, rep), draw(lo_sp, rep), bks)
+        if rng.random() < 0.2:
+            # a second occurrence of the tensor with other indices (only the
+            # derivative is specified for such terms: product rule)
+            up2, lo2 = rng.choice(blocks)
+            t = t * G.make_tensor(name, kind, draw(up2, rep), draw(lo2, rep),
+                                  bks)
         rest = G.random_term(rng, rng.randint(0, 2), pools, vocab=others)
         term = G.random_coef(rng, allow_sqrt=False) * t * rest
         if rng.random() < 0.15:
@@ -243,6 +249,69 @@ def run(ctx):
     rt = _rt()
     cases, meta = [], []
     dcases, dmeta = [], []
+    def do_derivative(E, e, p, tgc, tnames, name, ictx):
+        # ------------------------------------------------ derivative
+        try:
+            der = derivative(E.copy(), name)
+        except Exception as ex:
+            ctx.violation(f"C14:derivative-exception:{name}:{str(e)[:100]}",
+                          f"derivative raised {ex!r}",
+                          {"expr": str(e), "tensor": name}, False)
+            return
+        dname = "dZ"
+        # minimal index tuple of every occurrence, per canonical block
+        tuples = {}
+        for c, facs in p:
+            for a, inv in facs:
+                if a[0] == "T" and a[2] == name:
+                    mt = certfind.canon_tensor(minimal_tuple(a, tnames))
+                    tuples.setdefault(block_of(mt), set()).add(mt)
+        if any(len(v) > 1 for v in tuples.values()):
+            # occurrences in one block with different minimal index tuples
+            # (target / repeated indices at different places): the block-wise
+            # result has no single tensor to be contracted with - excluded
+            ctx.dist["derivative:excluded-ambiguous-block"] = \
+                ctx.dist.get("derivative:excluded-ambiguous-block", 0) + 1
+            return
+        variation = []
+        for c, facs in p:
+            for pos, (a, inv) in enumerate(facs):
+                if a[0] == "T" and a[2] == name and not inv:
+                    na = (a[0], a[1], dname) + a[3:]
+                    nf = list(facs)
+                    nf[pos] = (na, False)
+                    variation.append((c, nf))
+        contracted = []
+        okd = True
+        for (space, spin), D in der.items():
+            try:
+                pD = adcio.conv_expr(getattr(D, "sympy", D), ictx)
+            except adcio.Unsupported as ex:
+                okd = False
+                break
+            cand = tuples.get((space, spin))
+            if not cand:
+                okd = False
+                ctx.note(f"derivative key {(space, spin)} not among the "
+                         f"blocks of the occurrences {list(tuples)}")
+                break
+            atom = next(iter(cand))
+            atom = (atom[0], atom[1], dname) + atom[3:]
+            for c, facs in pD:
+                contracted.append((c, list(facs) + [(atom, False)]))
+        if not okd:
+            return
+        dirty = any(a[0] == "T" and a[2] == name and
+                    any(i in tgc for i in adcio.atom_indices(a))
+                    for c, facs in p for a, inv in facs)
+        variation = [normalize_sqrt(t) for t in variation]
+        contracted = [normalize_sqrt(t) for t in contracted]
+        dcases.append(EQ.coq_case(contracted, variation, tgc, deltas=True))
+        dmeta.append((E, name, der, contracted, variation, tgc, dirty))
+        ctx.case(key=("derivative", str(e), name, repr(tgc)),
+                 nontrivial=bool(der), kind=f"derivative:{name}")
+
+
     for k in range(n):
         e, tg, name = gen_expr(rng)
         if e == 0:
@@ -261,6 +330,9 @@ def run(ctx):
         multi = any(sum(1 for a, inv in facs if a[0] == "T" and a[2] == name)
                     > 1 for c, facs in p)
         if multi:
+            # remove_tensor is specified for one occurrence per term; the
+            # derivative (product rule over the occurrences) is checked
+            do_derivative(E, e, p, tgc, tnames, name, ictx)
             continue
         # ------------------------------------------------ remove_tensor
         try:
@@ -322,68 +394,7 @@ def run(ctx):
                          "blocks": {str(k_): str(getattr(v, "sympy", v))[:160]
                                     for k_, v in res.items()}},
                  kind=f"remove:{name}:blocks{min(len(res), 4)}")
-        # ------------------------------------------------ derivative
-        if is_adc_amp(name) and False:
-            continue
-        try:
-            der = derivative(E.copy(), name)
-        except Exception as ex:
-            ctx.violation(f"C14:derivative-exception:{name}:{str(e)[:100]}",
-                          f"derivative raised {ex!r}",
-                          {"expr": str(e), "tensor": name}, False)
-            continue
-        dname = "dZ"
-        # minimal index tuple of every occurrence, per canonical block
-        tuples = {}
-        for c, facs in p:
-            for a, inv in facs:
-                if a[0] == "T" and a[2] == name:
-                    mt = certfind.canon_tensor(minimal_tuple(a, tnames))
-                    tuples.setdefault(block_of(mt), set()).add(mt)
-        if any(len(v) > 1 for v in tuples.values()):
-            # occurrences in one block with different minimal index tuples
-            # (target / repeated indices at different places): the block-wise
-            # result has no single tensor to be contracted with - excluded
-            ctx.dist["derivative:excluded-ambiguous-block"] = \
-                ctx.dist.get("derivative:excluded-ambiguous-block", 0) + 1
-            continue
-        variation = []
-        for c, facs in p:
-            for pos, (a, inv) in enumerate(facs):
-                if a[0] == "T" and a[2] == name and not inv:
-                    na = (a[0], a[1], dname) + a[3:]
-                    nf = list(facs)
-                    nf[pos] = (na, False)
-                    variation.append((c, nf))
-        contracted = []
-        okd = True
-        for (space, spin), D in der.items():
-            try:
-                pD = adcio.conv_expr(getattr(D, "sympy", D), ictx)
-            except adcio.Unsupported as ex:
-                okd = False
-                break
-            cand = tuples.get((space, spin))
-            if not cand:
-                okd = False
-                ctx.note(f"derivative key {(space, spin)} not among the "
-                         f"blocks of the occurrences {list(tuples)}")
-                break
-            atom = next(iter(cand))
-            atom = (atom[0], atom[1], dname) + atom[3:]
-            for c, facs in pD:
-                contracted.append((c, list(facs) + [(atom, False)]))
-        if not okd:
-            continue
-        dirty = any(a[0] == "T" and a[2] == name and
-                    any(i in tgc for i in adcio.atom_indices(a))
-                    for c, facs in p for a, inv in facs)
-        variation = [normalize_sqrt(t) for t in variation]
-        contracted = [normalize_sqrt(t) for t in contracted]
-        dcases.append(EQ.coq_case(contracted, variation, tgc, deltas=True))
-        dmeta.append((E, name, der, contracted, variation, tgc, dirty))
-        ctx.case(key=("derivative", str(e), name, repr(tgc)),
-                 nontrivial=bool(der), kind=f"derivative:{name}")
+        do_derivative(E, e, p, tgc, tnames, name, ictx)
 
     vals, _ = ctx.coq_eval("remove", cases, header=adcio.COQ_HEADER2, shard=30)
     for v, (E, name, res, recon, p_in, tgc) in zip(vals, meta):
